@@ -69,7 +69,8 @@ func (m *jsonMarshaler) MarshalJSON() ([]byte, error) {
 	}
 
 	// Google V1 message?
-	if msg, isV1 := m.msg.(protov1.Message); isV1 {
+	// (Gogo messages satisfy the same interface and are handled below)
+	if msg, isV1 := m.msg.(protov1.Message); isV1 && MsgType(m.msg) != MessageTypeGogo {
 		jm := jsonpb.Marshaler{
 			Indent:       m.opts.indent,
 			EnumsAsInts:  m.opts.useEnumNumbers,
@@ -145,7 +146,8 @@ func (m *jsonUnmarshaler) UnmarshalJSON(data []byte) error {
 	}
 
 	// Google V1 message?
-	if msg, isV1 := m.msg.(protov1.Message); isV1 {
+	// (Gogo messages satisfy the same interface and are handled below)
+	if msg, isV1 := m.msg.(protov1.Message); isV1 && MsgType(m.msg) != MessageTypeGogo {
 		jm := jsonpb.Unmarshaler{
 			AllowUnknownFields: m.opts.allowUnknownFields,
 		}
